@@ -49,11 +49,11 @@ static const int EV_INIT[NE] = {0, 1, 0, 0, 2, 0, 2, -1};     // -1: not initial
 // Before the repair enable(e6) returned false but left SIGUSR1 subscribed for an event that reports isEnabled()==false; neither disable() nor the
 // destructor unsubscribes it, so the disposition of SIGUSR1 is never restored and a delivery after destroy(e6) calls into the freed event.
 static bool g_replay_keep_going = false;      // replay mode only (C04_REPLAY_KEEP_GOING=1): report a violation and carry on with the history
-// DEFECT SWITCH (default off so that the tree stays quiet): with C04_ADD_SIGNAL_THEN_DISABLE=1 lane D also offers disable(e)/destroy(e) while the event is enabled and holds an
+// (was a defect switch; repaired in /repo by a5defbb, on by default, C04_ADD_SIGNAL_THEN_DISABLE=0 turns it off) lane D also offers disable(e)/destroy(e) while the event is enabled and holds an
 // added signal that no enable() has subscribed yet (enable; addsig; disable). On the current code disable() walks the whole accumulated set and unsubscribeSignal() of the
 // never-subscribed signal "restores" a zero-filled old handler, i.e. installs SIG_DFL over the application's disposition of a signal the event never subscribed.
 // With the switch off the closed system is: who adds a signal to an enabled event calls enable() again before disabling or destroying it.
-static bool add_signal_then_disable() { const char *e = getenv("C04_ADD_SIGNAL_THEN_DISABLE"); return e && *e == '1'; }
+static bool add_signal_then_disable() { const char *e = getenv("C04_ADD_SIGNAL_THEN_DISABLE"); return !(e && *e == '0'); }   // on by default since the repair a5defbb in /repo; =0 turns it off
 static bool mixed_uncatchable_set() { const char *e = getenv("C04_MIXED_UNCATCHABLE_SET"); return !(e && *e == '0'); }   // on by default since the repair (fix commit in /repo); =0 switches it off
 
 // delivery scripts: all deliveries of a script happen before the loops get one pass each
